@@ -62,6 +62,7 @@ HASH_SITES = [
     ('odl/space/pspace.py', 'ProductSpace', 'hf_ProductSpace'),
     ('odl/space/weighting.py', 'Weighting', 'hf_Weighting'), ('odl/space/weighting.py', 'ConstWeighting', 'hf_ConstWeighting'),
     ('odl/space/weighting.py', 'ArrayWeighting', 'hf_ArrayWeighting'),
+    ('odl/space/weighting.py', 'MatrixWeighting', 'hf_MatrixWeighting'),
     ('odl/space/weighting.py', 'CustomInner', 'hf_CustomInner'), ('odl/space/weighting.py', 'CustomNorm', 'hf_CustomNorm'),
     ('odl/space/weighting.py', 'CustomDist', 'hf_CustomDist'),
 ]
